@@ -265,15 +265,18 @@ def symmetric(ctx):
         orig = it.ev
 
         def ev(e, st, _orig=orig, _it=it):
-            if isinstance(e, ast.Await) and not isinstance(e.value, ast.Call):
-                _it._raise('?', st)
+            if isinstance(e, ast.Await):
+                # any await can be cancelled by the caller (wait_for timeout): CancelledError is not an Exception
+                _it._raise('CancelledError', st)
+                if not isinstance(e.value, ast.Call):
+                    _it._raise('?', st)
             return _orig(e, st)
 
         it.ev = ev
         res = it.run(fn, 0)
         bad = [f'{k} via {" ".join(w)}' for k, st in res.items() if k.startswith('raise') for v, w in st.items() if v == 1]
         R.check(not bad, rule, f'{CM}.{cname} | failure path', 'a failed connect removes the channel(s) it had registered before re-raising',
-                f'{cname}: a failure after registering the channel leaves it in `channels` (its CID is never reusable)', p.loc(fn), bad)
+                f'{cname}: a failure or a cancellation after registering the channel leaves it in `channels` (its CID is never reusable)', p.loc(fn), bad)
 
 
 def per_connection_tables(p):
@@ -696,7 +699,49 @@ def response_echo(ctx):
         R.check('self.find_channel(connection.handle, response.source_cid)' in norm(mr), rule, f'{CM}.on_l2cap_disconnection_response | lookup', 'the requester finds its channel by the echoed source CID', 'the response is no longer matched by the echoed source CID', p.loc(mr))
 
 
+
+def classic_close_releases(ctx):
+    """A classic channel that reaches CLOSED because the peer closed it settles a local disconnect() in progress."""
+    R, p = ctx.r, ctx.p
+    rule = 'C09.close-releases'
+    ci = p.cls(CC)
+    if ci is None:
+        R.bad(rule, CC, f'anchor missing: {CC}')
+        return
+    n = 0
+    for name in ('on_disconnection_request', 'on_disconnection_response'):
+        m = ci.methods.get(name)
+        if m is None:
+            R.bad(rule, f'{CC}.{name}', 'anchor missing')
+            continue
+
+        class D(paths.Domain):
+            def event(self, node, v):
+                closed, settled = v
+                if isinstance(node, ast.Call):
+                    d = dotted(node.func) or ''
+                    if d == 'self._change_state' and node.args and text(node.args[0]).endswith('State.CLOSED'):
+                        closed = True
+                    if d in ('self.disconnection_result.set_result', 'self.disconnection_result.set_exception', 'self.disconnection_result.cancel'):
+                        settled = True
+                return ((closed, settled),)
+
+            def assume(self, atom, truth, v):
+                t = norm(atom)
+                if t in ('self.disconnection_result', 'self.disconnection_result is not None'):
+                    return (v,) if truth else ()     # a disconnect() caller is waiting
+                if t == 'self.disconnection_result is None':
+                    return () if truth else (v,)
+                return (v,)
+        res = paths.run(m, D(), (False, False))
+        bad = [' '.join(w) for k, st in res.items() if not k.startswith('raise') for (closed, settled), w in st.items() if closed and not settled]
+        n += 1
+        R.check(not bad, rule, f'{CC}.{name} | disconnect waiter', 'every path that closes the channel resolves a pending disconnection_result',
+                'a classic channel is closed while a local disconnect() is waiting and the waiter is not resolved (simultaneous disconnect hangs)', p.loc(m), bad[:2])
+
+
 RULES = [
+    ('C09.close-releases', classic_close_releases),
     ('C09.allocator-scan', allocator_scan),
     ('C09.response-echo', response_echo),
     ('C09.symmetric', symmetric),
